@@ -35,7 +35,13 @@ theorem encodeSegs_legacy (segs : List Seg) : encodeSegs true segs = encodeSegs 
   | cons g r ih => simp [encodeSegs, encodeSeg_legacy, ih]
 
 theorem segOk_stripLink {g : Seg} (h : SegOk g) : SegOk (stripLink g) := by
-  refine ⟨h.text, h.id, ?_⟩
+  have hbel : noBel (stripLink g).linkId = true ∧ ∀ s, (stripLink g).style = some s → noBel (s.link.getD []) = true := by
+    refine ⟨h.bel.1, ?_⟩
+    intro s hs
+    simp only [stripLink, Option.map_eq_some_iff] at hs
+    obtain ⟨s0, _, rfl⟩ := hs
+    rfl
+  refine ⟨h.text, h.id, ?_, hbel⟩
   intro s hs
   simp only [stripLink, Option.map_eq_some_iff] at hs
   obtain ⟨s0, h0, rfl⟩ := hs
